@@ -25,7 +25,7 @@ var lDependentTriples = [][3]string{{"cA", "iA", "tA"}, {"cA", "iA", "pA"}, {"rC
 var lTwoTxBlocks = []string{"rC2,xC2", "cA,iA", "cK,kK", "rC2f,tXC1", "xC1,xC3", "vVC1,tVX"}
 
 // the reduced alphabet for ALL pairs of letters at all pairs of positions (thorough tier)
-var lPairLetters = []string{"tVX", "vVC1", "rC2", "rC2f", "xC2", "xC1", "xD0", "s0", "cA", "iA", "kH", "cK", "kK"}
+var lPairLetters = []string{"tVX", "vVC1", "rC2", "rC2f", "xC2", "xC1", "xD0", "s0", "kH"}
 
 func lEmptyHist() []string {
 	h := make([]string, lWindow)
